@@ -114,7 +114,7 @@ Render(nodes, doc, env) == RenderSeq(nodes, 1, doc, env)
 VarText(n, doc, env, escape) ==
     LET d == Resolve(n.p, doc, env)  t == IF IsDoc(d) THEN ScalarText(d) ELSE [ok |-> FALSE, s |-> <<>>, str |-> FALSE] IN
     IF t.ok THEN (IF escape /\ t.str THEN Escape(t.s) ELSE t.s)
-    ELSE IF escape /\ LoopKey(n.p, env).ok THEN Escape(LoopKey(n.p, env).k)          \* the member key of an object loop
+    ELSE IF LoopKey(n.p, env).ok THEN (IF escape THEN Escape(LoopKey(n.p, env).k) ELSE LoopKey(n.p, env).k)   \* the member key of an object loop ({raw:} = {var:} without escaping)
     ELSE IF escape THEN Escape(n.src) ELSE n.src                                      \* unresolved: the tag's own source
 
 \* the phrase of a super variable: text pieces escaped, {d} replaced by sub-tag d
